@@ -78,6 +78,11 @@ type c20SPCase struct {
 	Type    byte     `json:"type"`
 	// After: metadata names of the packets injected after the first Respond has returned
 	After []string `json:"after"`
+	// Refused: before anything else a Respond for the SAME id and metadata is refused for its
+	// arguments ("neg-timeout", "neg-interval", "no-peers": no usable peer address); a refused call
+	// registers nothing. (Added after the independently seeded change C20-8: the attempt was
+	// registered before the arguments were validated and never removed on that path.)
+	Refused string `json:"refused_respond_before,omitempty"`
 }
 
 const c20SPGuard = 20 * time.Second // hang guard only: nothing below waits for time to pass
@@ -106,6 +111,31 @@ func c20SPRunInner(c *c20SPCase) string {
 	local := []netip.AddrPort{c20AddrPort(c20UDP(1, 4433))}
 	peers := []netip.AddrPort{c20AddrPort(c20UDP(77, 6000))}
 	cfg := PunchConfig{Timeout: time.Hour, Interval: time.Hour}
+	if c.Refused != "" {
+		badCfg, badPeers := cfg, peers
+		switch c.Refused {
+		case "neg-timeout":
+			badCfg.Timeout = -time.Second
+		case "neg-interval":
+			badCfg.Interval = -time.Second
+		case "no-peers":
+			badPeers = []netip.AddrPort{netip.AddrPortFrom(netip.MustParseAddr("192.0.2.1"), 0)}
+		}
+		ctx0, cancel0 := context.WithTimeout(ctx, 5*time.Second)
+		r0, err0 := sp.Respond(ctx0, "a", local, badPeers, metas["a1"].real(), badCfg)
+		cancel0()
+		if err0 == nil {
+			return fmt.Sprintf("a Respond with unusable arguments (%s) returned a result: %+v", c.Refused, r0)
+		}
+		// whatever the error, nothing may stay registered: a packet under that metadata reaches QUIC
+		pkt := c20RefEncode(c.Type, metas["a1"], [8]byte{9, 9, 9, 9, 9, 9, 9, 9}, []byte{1})
+		sock.Inject(pkt, c20UDP(99, 6999))
+		buf := make([]byte, 2048)
+		n, _, rerr := pc.ReadFrom(buf)
+		if rerr != nil || !bytes.Equal(buf[:n], pkt) {
+			return fmt.Sprintf("after a Respond was refused for its arguments (%s: %v), a punch packet under its metadata is withheld from QUIC although no attempt is running (ReadFrom: n=%d err=%v)", c.Refused, err0, n, rerr)
+		}
+	}
 	type res struct {
 		r   PunchResult
 		err error
@@ -232,38 +262,44 @@ func c20SPEnumerate(sh *evidence.Shard) {
 	delivers := [][]string{{}, {"a1"}, {"a2"}, {"c"}, {"a2", "a1"}, {"b", "a2", "a1"}, {"a1", "a2"}, {"c", "b"}}
 	afters := [][]string{{"a1"}, {"a2", "a1"}, {"a1", "b"}}
 	p.Alphabet = map[string]any{"first": "Respond(id a, metadata a1), in flight", "second Respond(id a) metadata": seconds,
-		"packets delivered while in flight (by metadata)": delivers, "packets delivered after the first Respond returned": afters, "type": []string{"hello", "ack"}}
+		"packets delivered while in flight (by metadata)": delivers, "packets delivered after the first Respond returned": afters, "type": []string{"hello", "ack"},
+		"a Respond refused for its arguments first": []string{"no", "negative timeout", "negative interval", "no usable peer address"}}
 	var item int64
-	for _, s2 := range seconds {
-		for _, d := range delivers {
-			for _, a := range afters {
-				for _, typ := range []byte{0x01, 0x02} {
-					item++
-					if !env.Mine(item) {
-						continue
-					}
-					if env.Expired() {
-						p.Exhaustive = false
-						p.Note("deadline reached")
-						return
-					}
-					c := c20SPCase{SecondMeta: s2, Deliver: d, After: a, Type: typ}
-					p.Evaluations++
-					clause := c20SPRun(&c)
-					p.Class(s2, fmt.Sprint(d), fmt.Sprint(a), typ, clause == "")
-					if p.Evaluations%17 == 3 {
-						p.Sample(c)
-					}
-					if clause != "" {
-						cc := c
-						short := clause
-						if len(short) > 90 {
-							short = short[:90]
+	for _, refused := range []string{"", "neg-timeout", "neg-interval", "no-peers"} {
+		for _, s2 := range seconds {
+			for _, d := range delivers {
+				for _, a := range afters {
+					for _, typ := range []byte{0x01, 0x02} {
+						if refused != "" && (len(d) > 1 || len(a) > 1) {
+							continue // the refused call in front of the short histories only
 						}
-						sh.Violate(p.Name, fmt.Sprintf("server-puncher/%s/second=%q,deliver=%v,after=%v,type=%d", short, s2, d, a, typ), clause, &cc)
-						if sh.NViolations() >= 4 {
+						item++
+						if !env.Mine(item) {
+							continue
+						}
+						if env.Expired() {
 							p.Exhaustive = false
+							p.Note("deadline reached")
 							return
+						}
+						c := c20SPCase{SecondMeta: s2, Deliver: d, After: a, Type: typ, Refused: refused}
+						p.Evaluations++
+						clause := c20SPRun(&c)
+						p.Class(s2, fmt.Sprint(d), fmt.Sprint(a), typ, clause == "")
+						if p.Evaluations%17 == 3 {
+							p.Sample(c)
+						}
+						if clause != "" {
+							cc := c
+							short := clause
+							if len(short) > 90 {
+								short = short[:90]
+							}
+							sh.Violate(p.Name, fmt.Sprintf("server-puncher/%s/second=%q,deliver=%v,after=%v,type=%d,refused=%s", short, s2, d, a, typ, refused), clause, &cc)
+							if sh.NViolations() >= 4 {
+								p.Exhaustive = false
+								return
+							}
 						}
 					}
 				}
